@@ -170,6 +170,9 @@ func c16Readiness(e *Env, cfg world.Config) {
 		cps = append(cps, n.IP.String())
 	}
 	args := []string{"--contact-points", strings.Join(cps, ","), "--bind", "127.0.0.1:9042", "--health-check", "--http-bind", "127.0.0.1:8000", "--readiness-timeout", rt}
+	if cfg.AuthUser != "" {
+		args = append(args, "--username", cfg.AuthUser, "--password", cfg.AuthPass)
+	}
 	ctx, cancel := context.WithCancel(context.Background())
 	defer cancel()
 	done := false
@@ -612,11 +615,16 @@ func c16(e *Env) {
 					return
 				}
 				el := w.Now() - t0
-				if d2 <= 0 || d2 < d1 || d2 > el+time.Second || d2 < el-time.Second {
+				if len(w.ControlConns) > 0 {
+					// the control connection came back while the sample was being taken (sampling
+					// steps the world): the sample says nothing about the outage clock
+					e.Res.Stats["probe.c16.outage_sample_overtaken"]++
+				} else if d2 <= 0 || d2 < d1 || d2 > el+time.Second || d2 < el-time.Second {
 					w.Violate("c16-outage", "outage-clock-wrong", fmt.Sprintf("no control connection for %v but OutageDuration went from %v to %v", el, d1, d2))
 					return
+				} else {
+					e.Res.Stats["oracle.c16.outage_samples_checked"]++
 				}
-				e.Res.Stats["oracle.c16.outage_samples_checked"]++
 			}
 		}
 		ok = w.RunUntil(func() bool { return len(w.ControlConns) > 0 }, bound)
